@@ -9,6 +9,8 @@ Expression trees are JSON-able nested lists:
     ["p", name]                 scalar parameter
     ["e", name, k]              element k (0-based) of vector parameter `name`
     ["c", value]                floating point constant
+    ["i", text]                 INTEGER literal written exactly as `text` ("-2", "+3", "0") in C, same value in numpy
+    ["call", f, a]  ["call", f, a, b]   C99 math function f (MATH_FUNCTIONS) of one / two arguments
     ["inv", x]                  1/(1+x^2)
     ["gau", x]                  exp(-x^2)
     ["add", a, b], ["mul", a, b]
@@ -26,8 +28,43 @@ import numpy as np
 # ------------------------------------------------------------------------------------------------
 # expression trees
 
+def _np_gamma(x):
+    from scipy.special import gamma
+    return gamma(x)
+
+
+def _np_erf(x):
+    from scipy.special import erf
+    return erf(x)
+
+
+def _np_erfc(x):
+    from scipy.special import erfc
+    return erfc(x)
+
+
+# C99 name -> (numpy source text used in the Python flavour, callable used by direct evaluation)
+MATH_FUNCTIONS = {
+    "sin": ("np.sin", np.sin), "cos": ("np.cos", np.cos), "tan": ("np.tan", np.tan),
+    "asin": ("np.arcsin", np.arcsin), "acos": ("np.arccos", np.arccos), "atan": ("np.arctan", np.arctan),
+    "sinh": ("np.sinh", np.sinh), "cosh": ("np.cosh", np.cosh), "tanh": ("np.tanh", np.tanh),
+    "asinh": ("np.arcsinh", np.arcsinh), "acosh": ("np.arccosh", np.arccosh), "atanh": ("np.arctanh", np.arctanh),
+    "atan2": ("np.arctan2", np.arctan2), "erf": ("erf", _np_erf), "erfc": ("erfc", _np_erfc),
+    "tgamma": ("tgamma", _np_gamma), "exp": ("np.exp", np.exp), "exp2": ("np.exp2", np.exp2),
+    "expm1": ("np.expm1", np.expm1), "log": ("np.log", np.log), "log2": ("np.log2", np.log2),
+    "log10": ("np.log10", np.log10), "log1p": ("np.log1p", np.log1p), "pow": ("np.power", np.power),
+    "sqrt": ("np.sqrt", np.sqrt), "fabs": ("np.fabs", np.fabs), "fmax": ("np.fmax", np.fmax),
+    "fmin": ("np.fmin", np.fmin),
+}
+
+
 def render(e, lang="c"):
     k = e[0]
+    if k == "i":
+        return e[1] if lang == "c" else "(%r)" % float(int(e[1]))
+    if k == "call":
+        args = ", ".join(render(a, lang) for a in e[2:])
+        return "%s(%s)" % (e[1] if lang == "c" else MATH_FUNCTIONS[e[1]][0], args)
     if k == "q":
         return "q"
     if k == "a":
@@ -54,6 +91,10 @@ def render(e, lang="c"):
 def evaluate(e, env):
     """direct numpy evaluation; env: {"q": array, name: float | sequence}"""
     k = e[0]
+    if k == "i":
+        return float(int(e[1]))
+    if k == "call":
+        return MATH_FUNCTIONS[e[1]][1](*[evaluate(a, env) for a in e[2:]])
     if k == "q":
         return np.asarray(env["q"], float)
     if k == "a":
@@ -86,8 +127,13 @@ def symbols(e):
         return {e[1]}
     if e[0] == "e":
         return {e[1]}
-    if e[0] == "c":
+    if e[0] in ("c", "i"):
         return set()
+    if e[0] == "call":
+        out = set()
+        for x in e[2:]:
+            out |= symbols(x)
+        return out
     out = set()
     for x in e[1:]:
         out |= symbols(x)
@@ -126,8 +172,10 @@ def substitute(e, mapping):
     """rename scalar parameters / turn a scalar into a vector element: mapping {old: new-node}"""
     if e[0] == "p" and e[1] in mapping:
         return mapping[e[1]]
-    if e[0] in ("q", "a", "p", "e", "c"):
+    if e[0] in ("q", "a", "p", "e", "c", "i"):
         return e
+    if e[0] == "call":
+        return e[:2] + [substitute(x, mapping) for x in e[2:]]
     return [e[0]] + [substitute(x, mapping) for x in e[1:]]
 
 
@@ -242,7 +290,8 @@ def write_pair(spec, scratch, name):
         fh.write("".join(src))
     # ---- Python flavours
     for tag, vectorized in (("py", True), ("pys", False)):
-        src = [HEADER % {"doc": "Python flavour", "name": name + "_" + tag}, table_source(par_rows(spec))]
+        src = [HEADER % {"doc": "Python flavour", "name": name + "_" + tag},
+               "from scipy.special import erf, erfc, gamma as tgamma\n", table_source(par_rows(spec))]
         a = ", ".join(["q"] + _args(spec, "iq", "py"))
         guard = ""
         if valid:
@@ -336,6 +385,13 @@ def mean_from_points(point_fn, nq, base, disp, cutoff=0.0):
         if p is None:
             ninvalid += 1
             continue
+        if p.get("wfactor") is not None:
+            # extra weight of the point that is not a distribution weight (|cos(dtheta)| of the jitter projection);
+            # the cutoff applies to the complete weight
+            w *= p["wfactor"]
+            if not (w > cutoff):
+                ncut += 1
+                continue
         nqual += 1
         sw += w
         sF2 += w * p["F2"]
